@@ -75,6 +75,7 @@ class Module:
 
         self.mirrored_compares = orient.normalise_module(self.tree, rel) if os.environ.get("VERIF_NO_ALPHA") != "1" else 0
         self.canon_aug = orient.canon_augassign(self.tree) if os.environ.get("VERIF_NO_ALPHA") != "1" else 0
+        self.canon_walrus = orient.canon_walrus(self.tree) if os.environ.get("VERIF_NO_ALPHA") != "1" else 0
         self.canon_tmp = orient.canon_single_use_temps(self.tree) if os.environ.get("VERIF_NO_ALPHA") != "1" else 0
         self.canon_if = orient.canon_nested_if(self.tree) if os.environ.get("VERIF_NO_ALPHA") != "1" else 0
         self.functions: dict[str, FunctionInfo] = {}
